@@ -307,5 +307,5 @@ def machine_factory(typ):
 
 def subchecks(tier):
     big = tier == "thorough"
-    return [Sub(f"type{t}", body, machine=machine_factory(t), n=5000 if big else 800, steps=30, shards=8 if big else 4)
+    return [Sub(f"type{t}", body, machine=machine_factory(t), n=30_000 if big else 800, steps=30, shards=8 if big else 4)
             for t in (1, 2)]
